@@ -44,7 +44,7 @@ func groupCoverage(e *vc.Engine, units []UnitPlan) []StructResult {
 			order = append(order, u.Func)
 		}
 		byFunc[u.Func] = append(byFunc[u.Func], u.Opts)
-		if len(u.Opts.Groups) > 0 && !u.Opts.AssertsOnly && !u.Opts.LocksOnly {
+		if len(u.Opts.Groups) > 0 && !u.Opts.AssertsOnly && !u.Opts.LocksOnly && !u.Opts.FrameOnly {
 			grouped[u.Func] = true
 		}
 	}
